@@ -89,6 +89,50 @@ CHECKS.update({
         "Trusted: the dict-based reference model in c14.py. Read names unique within the list.", "C14"),
 })
 
+CHECKS.update({
+    "C03": (EXPL, "bounded-exhaustive enumeration of read/variant incidence structures run through the pipeline; components recomputed from the traced solver reads",
+        "Every set of <= 3 read kinds (arbitrary subsets of >= 2 of k <= 5 variants, realised with reference skips / mate pairs) x haplotype assignment x tag, a selection-active slice "
+        "(copies + tiny coverage cap) and a trio slice with members homozygous at chosen variants (with / without genetic haplotyping): same PS <=> connected by the reads handed to the "
+        "solver (trace hook, cross-checked with --output-read-list), PS = leftmost variant of the component, master-block merge in pedigree mode.",
+        "Trusted: the trace hook's list of reads handed to the solver; independent BFS components.", "C03"),
+    "C04": (EXPL, "bounded-exhaustive enumeration of record-kind sequences x decoration profiles x option vectors, record-by-record diff of input and output",
+        "All sequences of <= 3 (4) record kinds (het SNV/indel, hom, missing, partial, multi-ALT, symbolic, duplicate position, no-ALT, pre-phased PS/HP) in a 3-sample, 2-chromosome VCF "
+        "x 5 decoration profiles (ID/QUAL/FILTER/INFO/FORMAT incl. undeclared predefined keys and an undeclared contig) x sample/chromosome/tag/only-snvs/distrust options; the output is "
+        "diffed with an independent text reader.",
+        "Trusted: text-level comparison (numbers as numbers). Undeclared *non-predefined* keys are refused by whatshap and not generated.", "C04"),
+    "C05": (EXPL, "bounded-exhaustive enumeration of family genotype combinations x read support x options through run_whatshap --ped",
+        "All 64 (father, mother, child) genotype combinations per variant over {0/0,0/1,1/1,./.} for k<=2 (4096 for k=2), a restricted k=3 space with a paternal recombination, "
+        "two-child quartets; read support none/child/parents/all; uniform and map-based recombination costs; with and without genetic haplotyping. Judged: paternal|maternal order, "
+        "one fixed reading of the traced transmission bits, conflicts/missing left unphased, homozygous-parent variants phased without reads.",
+        "Trusted: scenario construction of Mendelian-consistent haplotypes; the trace hook's transmission vector.", "C05"),
+    "C09": (MC, "explicit-state BFS over {phase PS, phase HP, unphase, phase-from-phased-VCF} histories; every transition executed by the real commands",
+        "Per base scenario (k<=5 (6) het variants + hom + multi-ALT record, one/two/interleaved blocks, singleton, 1-2 samples, unsorted GT, foreign PS/HP pre-phasing) BFS to depth 3; on every "
+        "transition: decoded output == what the writer was given (trace), own reader == text decoder, PS vs HP equal, no stale/old phase statement, phase(x) == phase(unphase(x)), phased VCF "
+        "as only phase input reproduces its sets.",
+        "Trusted: text decoder of PS/HP (GATK semantics), trace hook. A non-target sample is kept unphased (a PS-phased bystander next to an HP-tagged target is refused by whatshap's reader by design).", "C09"),
+    "C10": (EXPL, "bounded-exhaustive enumeration of alignment-kind sequences x VCF designs x options; conservation diff, independent scoring, exchange symmetry by a second run",
+        "All sequences of <= 3 (4) alignment kinds (pure / mostly / tied haplotype reads, no-variant reads, mates, supplementary, secondary, duplicate, unmapped placed/unplaced, other "
+        "sample, no RG, stale tags, shared BX) x 5 phased-VCF designs x options (tag-supplementary, ignore-linked-read, one region, output threads, no reference, ignore-read-groups); ploidy 3-4 slice.",
+        "Trusted: synthesiser, independent scoring (each variant of a read name counted once; 30 per variant). One region per chromosome; BX-linked reads judged on conservation and symmetry only.", "C10"),
+    "C15": (EXPL, "bounded-exhaustive enumeration of polyploid worlds (haplotype matrices up to row order x read tilings x -B x tag) through run_polyphase",
+        "Ploidy 2-4 (5-6 thorough), k<=5 variants, all 0/1 matrices with heterozygous columns up to row order (thinned deterministically above a budget), multi-allelic slice, uneven coverage, "
+        "coverage gaps, pre-phasing, distrust: genotype conformance, only heterozygous phased, pass-through, phase sets = disjoint ordered stretches of the read-covered het variants named inside their own stretch.",
+        "Trusted: synthesiser; which variants are read-covered is known from the scenario. Matrices beyond the per-shape budget are thinned (stated in the evidence).", "C15"),
+    "C16": (MC, "enumeration of schedules: hash seeds until every iteration order of the sample-name set occurred; all job->worker assignments under a controlled pool; thread-count values; repetition",
+        "14 subcommand scenarios run in fresh interpreters under PYTHONHASHSEED=0,1,2,... until all n! orders of the name set were realised (measured in the child); polyphase under a "
+        "controlled multiprocessing pool for every assignment of the jobs to 2 and 3 workers (up to symmetry) and under the stock Pool; every command twice in one interpreter; haplotag --output-threads 1/2/4. "
+        "All outputs compared record for record with the first run.",
+        "Trusted: abstraction of the hash seed to the order of the name sets; htslib's internal writer threads are not owned by the harness.", "C16"),
+    "C17": (MC, "pipeline histories phase -> haplotag -> (partial) unphase -> haplotagphase executed by the real commands for every subset of variants left phased",
+        "Worlds with k<=4 variants (SNV/INS/DEL/MNP mixes), one or two phase sets, all covered / one uncovered / one set untagged; for every subset kept phased in haplotagphase's input the output "
+        "must carry the original haplotype order and the covering reads' phase set for newly phased variants and leave already phased ones untouched.",
+        "Trusted: synthesiser; partial unphase by text edit.", "C17"),
+    "C20": (EXPL, "bounded-exhaustive enumeration of (chromosomes x family structures x list options); differential oracle whole run vs. per-chromosome / per-family runs plus trace and VCF diff",
+        "1-3 chromosomes x {single, two unrelated, trio, two trios, trio+single} x recombination / genotype-change placements x tag x chromosome selections: read list == traced reads, "
+        "changed-genotype list == input/output VCF differences (empty without --distrust-genotypes), recombination entries inside one phase set, every list == union of the lists of separate runs.",
+        "Trusted: trace hook; the tool's own criterion for a recombination event (only completeness over chromosomes/families and set membership are judged).", "C20"),
+})
+
 PENDING = {}
 
 
